@@ -45,14 +45,59 @@ var c14Targets = []c14Target{
 }
 
 // Lexical detectors (outputs of generated programs never contain these tokens inside strings).
-var c14Detectors = map[string]*regexp.Regexp{
+type c14Detector interface{ MatchString(string) bool }
+
+// c14AsyncDet: async functions, methods and arrows. `async(...)` is an async arrow only when the parenthesis that
+// closes the parameter list is followed by `=>` (otherwise it is a call of a function named async), so the
+// parameter list is matched by counting parentheses instead of a regular expression.
+type c14AsyncDet struct{ other *regexp.Regexp }
+
+var c14AsyncWord = regexp.MustCompile(`\basync[ \t]*\(`)
+
+func (d c14AsyncDet) MatchString(out string) bool {
+	if d.other.MatchString(out) {
+		return true
+	}
+	for _, loc := range c14AsyncWord.FindAllStringIndex(out, -1) {
+		if loc[0] > 0 && (out[loc[0]-1] == '.' || out[loc[0]-1] == '$') {
+			continue
+		}
+		depth, i := 0, loc[1]-1
+		for ; i < len(out); i++ {
+			switch ch := out[i]; ch {
+			case '(':
+				depth++
+			case ')':
+				depth--
+			case '\'', '"', '`':
+				for i++; i < len(out) && out[i] != ch; i++ {
+					if out[i] == '\\' {
+						i++
+					}
+				}
+			}
+			if depth == 0 {
+				break
+			}
+		}
+		if i >= len(out) {
+			continue
+		}
+		if rest := strings.TrimLeft(out[i+1:], " \t"); strings.HasPrefix(rest, "=>") {
+			return true
+		}
+	}
+	return false
+}
+
+var c14Detectors = map[string]c14Detector{
 	"optional-chain":            regexp.MustCompile(`\?\.[^0-9]`),
 	"nullish-coalescing":        regexp.MustCompile(`\?\?[^=]`),
 	"logical-assignment":        regexp.MustCompile(`\?\?=|\|\|=|&&=`),
 	"exponent-operator":         regexp.MustCompile(`\*\*`),
 	"bigint":                    regexp.MustCompile(`\b[0-9]+n\b`),
 	"class-static-blocks":       regexp.MustCompile(`\bstatic\s*\{`),
-	"async-await":               regexp.MustCompile(`\basync\s+function\b|\basync\s*\([^)]*\)\s*=>|\basync\s+[a-zA-Z_$][\w$]*\s*=>|\basync\s+[\[a-zA-Z_$#*"']`),
+	"async-await":               c14AsyncDet{regexp.MustCompile(`\basync\s+function\b|\basync\s+[a-zA-Z_$][\w$]*\s*=>|\basync\s+[\[a-zA-Z_$#*"']`)},
 	"async-generator":           regexp.MustCompile(`\basync\s+function\s*\*|\basync\s*\*`),
 	"for-await":                 regexp.MustCompile(`\bfor\s+await\b`),
 	"optional-catch-binding":    regexp.MustCompile(`\bcatch\s*\{`),
@@ -63,6 +108,8 @@ var c14Detectors = map[string]*regexp.Regexp{
 	"template-literal":          regexp.MustCompile("`"),
 }
 
+// syntax that the newest installed engine (Node 22) does not parse yet although it is valid input for esbuild
+var c14NewerThanNode22 = regexp.MustCompile(`\baccessor\b|\busing\b|@|\bimport\s+(defer|source)\b`)
 var c14BigintKey = regexp.MustCompile(`[{,]\s*[0-9]+n\s*:`)
 var c14Asyncish = regexp.MustCompile(`\basync\b`)
 
@@ -120,8 +167,21 @@ func c14CheckBatch(c *Check, ns *nodeSet, w int, cases []xcase, seg string) {
 	}
 	byVersion := map[string][]synCase{}
 	pends := map[string][]pend{}
+	// the property speaks about valid programs: inputs the newest engine rejects in both goals (early errors such as `[a]++`) are skipped, unless they use syntax newer than that engine
+	var inSyn []synCase
 	for _, cs := range cases {
+		inSyn = append(inSyn, synCase{cs.code, "script"}, synCase{cs.code, "module"})
+	}
+	valid := ns.syntax("22", w, inSyn)
+	for ci, cs := range cases {
 		c.Eval(1)
+		if !valid[2*ci] && !valid[2*ci+1] && !c14NewerThanNode22.MatchString(cs.code) {
+			c.Sub("generator_invalid_input", 1)
+			if os.Getenv("VERIF_DEBUG") != "" {
+				fmt.Fprintf(os.Stderr, "INVALID-INPUT %q\n", cs.code)
+			}
+			continue
+		}
 		for _, t := range c14Targets {
 			for vi, v := range c14Variants {
 				if c.Tier == "quick" && vi >= 2 && (len(cs.code)+vi)%3 != 0 {
